@@ -436,7 +436,7 @@ def run(tier: str, replay: str | None = None):
                 fix_cases.append((c["code"], c["fix_lines"]))
             else:
                 iter_cases.append((c["text"], c["cfg"]))
-        n_iter = 100 if tier == "quick" else 400
+        n_iter = 70 if tier == "quick" else 400
         for i in range(n_iter):
             iter_cases.append(("\n".join(gen_program(rng)) + "\n", BASE_CFG))
         for i in range(3 if tier == "quick" else 12):
@@ -444,7 +444,7 @@ def run(tier: str, replay: str | None = None):
             iter_cases.append((f"import os\ndef f{k}():\n    print(undef_{k})  {IGNORE}[bad_unpack]\n    return os.sep\n", UNUSED_ON_CFG))
         for i, t in enumerate(FIX_TEMPLATES):
             fix_cases.append(gen_fix_program(rng, i, forced=t))
-        for i in range(170 if tier == "quick" else 900):
+        for i in range(110 if tier == "quick" else 900):
             fix_cases.append(gen_fix_program(rng, 100 + i))
 
     # ---- part A: the add-ignores iteration --------------------------------
